@@ -335,7 +335,8 @@ def cfg_term(kw):
             (boollit(g('debug', False)), boollit(g('case_sensitive', True)), boollit(g('strip', True)),
              boollit(g('strip_all', False)), boollit(g('clean_spaces', True)), boollit(g('accept_any', False)),
              boollit(g('accept_nonempty', False)), zlit(g('min_length', 0)), zlit(g('min_words', 0)),
-             exterm(g('explain_minimums', 'err')), optlit(g('validation_pattern'), slit),
+             exterm(g('explain_minimums', 'err')),
+             '(@None str)' if g('validation_pattern') is None else '(Some %s)' % slit(g('validation_pattern')),
              exterm(g('explain_validation', 'err')), slit(g('invalid_msg', 'Your input is not in the expected format'))))
 
 
@@ -535,7 +536,7 @@ def add_call(case, res, cases, stats):
     if not case['config'].get('case_sensitive', True) and not all(lower_is_charwise(t) for t in texts[:2]):
         stats['excluded_context_sensitive_lower'] = stats.get('excluded_context_sensitive_lower', 0) + 1
         return obs
-    conf = 'None' if case.get('expect') is None else '(Some (%s, inferred_answer))' % slit(case['expect'])
+    conf = '(@None (str * entry))' if case.get('expect') is None else '(Some (%s, inferred_answer))' % slit(case['expect'])
     term = '(%s, %s, %s, %s)' % (cfg_term(case['config']), conf, slit(case['sub']), obs_term(obs))
     cases.append((term, texts, {'config': case['config'], 'expect': case.get('expect'), 'sub': case['sub'],
                                 'impl': list(obs)}))
